@@ -24,6 +24,7 @@ import (
 var (
 	ErrUDPNoRoute        = errors.New("no UDP route available")
 	ErrUDPStreamNotFound = errors.New("UDP stream not found")
+	ErrUDPNoSessionKey   = errors.New("UDP association has no session key")
 )
 
 // udpDestAssociation tracks a single exit-path for one destination route.
@@ -355,14 +356,15 @@ func (a *Agent) RelayUDPDatagram(streamID uint64, destAddr net.Addr, destPort ui
 	nextHop := dest.NextHop
 	dest.mu.RUnlock()
 
-	var ciphertext []byte
-	if sessionKey != nil {
-		ciphertext, err = sessionKey.Encrypt(data)
-		if err != nil {
-			return err
-		}
-	} else {
-		ciphertext = data
+	// Fail closed: without an end-to-end session key (for example when the
+	// ephemeral key was stripped from the UDP_OPEN_ACK on its way back) the
+	// datagram must not be sent, otherwise every transit agent could read it.
+	if sessionKey == nil {
+		return ErrUDPNoSessionKey
+	}
+	ciphertext, err := sessionKey.Encrypt(data)
+	if err != nil {
+		return err
 	}
 
 	datagram := &protocol.UDPDatagram{
